@@ -14,9 +14,12 @@ EXPLANATION = (
     "is_regex, is_complete_regex, is_left_anchor, is_right_anchor}, extracted by path enumeration on all 32 "
     "valuations, equals the reference (un-anchored -> substring leaf, |p -> prefix, p| -> suffix, |p| -> "
     "equality, ||h.. -> the five hostname leaves, regex flags -> regex leaf); each leaf applies the "
-    "expected primitive (memmem::find / starts_with / ends_with / ==) to the URL selected by match_case, the "
-    "hostname leaves test is_anchored_by_hostname before anything else and apply the remainder primitive to "
-    "get_url_after_hostname(..), and every leaf consumes the WHOLE pattern iterator (Iterator::any or "
+    "expected primitive (memmem::find / starts_with / ends_with / ==) to the URL selected by match_case; the "
+    "hostname leaves enumerate EVERY label-aligned occurrence of the rule's hostname in the request's hostname "
+    "(anchored_hostname_ends: truth table of one step against the label-boundary specification, the search "
+    "resumes one byte after an occurrence) and apply the remainder primitive to the URL cut directly after that "
+    "occurrence, at the hostname's own position in the URL (after `://` and any userinfo, not wherever the same "
+    "text occurs first); every leaf consumes the WHOLE pattern iterator (Iterator::any or "
     "hand-off to the regex manager) — needed for fused rules; (2) flag-name agreement — make_regexp passes "
     "is_right_anchor / is_left_anchor / is_complete_regex predicates to the parameters of compile_regex of "
     "the same names; (3) regex translation constants — '*' -> '.*', '^' -> the separator class "
@@ -24,8 +27,8 @@ EXPLANATION = (
     "the anchor flags, per pattern, all patterns handed to the RegexSet; the regex leaf returns only what "
     "RegexManager::matches returns (no shortcut path)."
 )
-NOT_DECIDED = ("Where in a string the primitives hit: e.g. the known handling of `||ads.net^` against host "
-               "`xads.net.ads.net` (first occurrence only) is value-level and no rule here reports it.")
+NOT_DECIDED = ("What the library primitives (memmem::find, str::starts_with, the regex crate) answer on concrete "
+               "strings; that `www.` is stripped from a rule's hostname (reported as a known finding, see C02.7).")
 
 NM = "filters::network_matchers::"
 H = "filters::network::NetworkFilterMaskHelper::"
@@ -80,6 +83,41 @@ def check(run):
         b1 = run.borrow("C01", only=r"token-limit", why="a pattern can only be compared with the URLs whose tokens reach its bucket: the URL's first 127 tokens must all be looked up")
         run.guard("C02.via.C01.4.token-boundary", cfg, lambda: _C01.rule_boundary(b1, F, cfg))
     run.guard("C02.6.regex-literal-classification", "A/D", lambda: rule_regex_literal_agreement(run))
+    for cfg in run.cfgs("A", "D"):
+        F = run.facts(cfg)
+        run.guard("C02.7.host-verbatim", cfg, lambda: rule_host_verbatim(run, F, cfg))
+
+
+def rule_host_verbatim(run, F, cfg):
+    """`||host` pins the pattern to `host` or one of its subdomains: the hostname kept for matching is the rule's own
+    (lower-cased, punycoded). Two places give up on that, both reported as known findings:
+      * a leading `www.` is cut off, so `||www.example.com^` also matches example.com and all its other subdomains;
+      * `|ws://` is turned into the websocket bit, which wss:// requests satisfy as well (there is no separate bit), and
+        the pattern text is dropped."""
+    p = F.fn("filters::network::NetworkFilter::parse")
+    bodies = [p] + F.closures_of(p.name)
+    run.touched(*bodies)
+    strip = [(g.loc(b), g.expr_operand(t["args"][1])) for g in bodies for b, t in g.calls(r"str::trim_start_matches$|str::strip_prefix$")
+             if "www" in g.expr_operand(t["args"][1])]
+    run.ob("C02.7.host-verbatim", "www-prefix-stripped", not strip,
+           f"NetworkFilter::parse removes a `www.` prefix from the hostname of `||host` rules ({strip[:1]}): `||www.example.com^` "
+           "matches https://example.com/ and https://cdn.example.com/, which are neither www.example.com nor subdomains of it",
+           site=strip[0][0] if strip else p.loc(0), config=cfg)
+    ws = [(b, t) for b, t in p.calls(r"str::starts_with$") if p.expr_operand(t["args"][1]) == '"ws://"']
+    wss_bit = [n for n in F.consts if re.search(r"NetworkFilterMask::.*WSS", n)]
+    erased = False
+    for b, t in ws:
+        # the arm taken when the pattern is exactly `ws://`: is the pattern text dropped there?
+        for b2 in p.reachable_from(b):
+            for st in p.blocks[b2]["s"]:
+                if st["k"] == "assign" and p.varnames.get(st["pl"]["l"]) == "filter_index_start" and not st["pl"]["p"] \
+                        and p.expr_rvalue(st["rv"], 1).endswith("filter_index_end") and p.dominates(b, b2) \
+                        and any(k.endswith('"ws://")') and v == 1 for k, v in dominating_conditions(p, b2).items()):
+                    erased = True
+    run.ob("C02.7.host-verbatim", "ws-pattern-also-covers-wss", not (ws and erased and not wss_bit),
+           "the left-anchored pattern `|ws://` is replaced by the FROM_WEBSOCKET bit and its text dropped; the bit is satisfied "
+           "by wss:// requests too, so `|ws://` matches wss://example.com/ although that URL does not start with `ws://`",
+           site=p.loc(ws[0][0]) if ws else p.loc(0), config=cfg)
 
 
 def _classification_sites(F):
@@ -175,12 +213,31 @@ LEAVES = {
 }
 
 
+def _resolved(F, g, op, depth=0):
+    """provenance rendering of an operand, with captured variables of nested closures traced to the enclosing body"""
+    e = g.expr_operand(op)
+    m = re.match(r"^up:(\w+)$", e)
+    while m and "::{closure" in g.name and depth < 4:
+        parent = F.fns.get(g.name.rsplit("::{closure", 1)[0])
+        if parent is None:
+            break
+        ls = [l for l, nme in parent.varnames.items() if nme == m.group(1)]
+        if not ls:
+            break
+        e2 = parent.expr_local(ls[0])
+        if e2 == e:
+            break
+        g, e, depth = parent, e2, depth + 1
+        m = re.match(r"^up:(\w+)$", e)
+    return re.sub(r"^<std::string::String as std::ops::Deref>::deref\((.*)\)$", r"\1)", e) if e.startswith("<std::string::String as std::ops::Deref>") else e
+
+
 def rule_leaves(run, F, cfg):
     for leaf, (what, prim, hosted) in LEAVES.items():
         f = F.fn(NM + leaf)
         cone = [F.fns[n] for n in F.cone([f.name]) if F.fns[n].file.endswith("network_matchers.rs") and n != f.name
                 and (n.startswith(f.name + "::") or not re.search(r"::check_pattern_(plain|left|right|left_right)\w*_filter", n))
-                and not n.endswith("is_anchored_by_hostname") and not n.endswith("get_url_after_hostname")]
+                and not re.search(r"::(is_anchored_by_hostname|get_url_after_hostname|anchored_hostname_ends|offsets_after_hostname|hostname_offset)(::|$)", n)]
         cl = cone
         run.touched(f, *cl)
         prims = [strip_generics(t["callee"]) for c in cl for b, t in c.calls(prim)]
@@ -199,45 +256,27 @@ def rule_leaves(run, F, cfg):
         nxt = [1 for c in [f] + cl for b, t in c.calls(r"Iterator::next$") if "arg:filters" in c.expr_operand(t["args"][0])]
         run.ob("C02.1.leaves", f"{leaf}:whole-iterator", not nxt,
                f"{leaf} never looks at only the first pattern (no bare filters.next())", config=cfg)
-        if hosted:
-            anc = [(c, b) for c in cl for b, t in c.calls(r"^filters::network_matchers::is_anchored_by_hostname$")]
-            ok_a = bool(anc)
-            for c, b in anc:
-                # every other call in that closure is dominated by is_anchored_by_hostname == true
-                for b2, t2 in c.calls():
-                    if b2 == b or strip_generics(t2["callee"]).endswith("contains") and False:
-                        continue
-                    cs = strip_generics(t2["callee"])
-                    if re.search(r"Iterator::any$|get_url_after_hostname$|starts_with$|ends_with$|memmem::find$|::eq$", cs):
-                        if not has_cond(dominating_conditions(c, b2), r"is_anchored_by_hostname\(", 1):
-                            ok_a = False
-            run.ob("C02.1.leaves", f"{leaf}:hostname-gate", ok_a,
-                   f"{leaf} evaluates the remainder only after is_anchored_by_hostname(filter_hostname, "
-                   f"request.hostname, ..) returned true", config=cfg)
-            if leaf != "check_pattern_hostname_right_anchor_filter":
-                inner = [c2 for n, c2 in F.fns.items() if n.startswith(f.name + "::{closure") and n.count("{closure") >= 2]
-                uses_after = any("get_url_after_hostname" in c2.expr_call(t) or "up:url_after_hostname" in c2.expr_call(t)
-                                 for c2 in cl for b, t in c2.calls(prim)) or \
-                    any(c2.calls(r"get_url_after_hostname$") for c2 in cl)
-                run.ob("C02.1.leaves", f"{leaf}:remainder-after-host", uses_after,
-                       f"{leaf} applies its primitive to get_url_after_hostname(url, hostname), not to the whole URL",
-                       config=cfg)
-    # every hostname-anchoring test passes the rule's own hostname, the request hostname and the
-    # wildcard flag of the mask
+    # every hostname-anchoring call passes the rule's own hostname, the request hostname and the wildcard flag of
+    # the mask (a `||host*rest` rule must be allowed to continue inside a label)
     n_a = 0
     for g in F.fns.values():
-        if not g.file.endswith("network_matchers.rs"):
+        if not g.file.endswith("network_matchers.rs") or not g.name.startswith(NM + "check_pattern_"):
             continue
-        for b, t in g.calls(r"^filters::network_matchers::is_anchored_by_hostname$"):
+        for b, t in g.calls(r"^filters::network_matchers::(is_anchored_by_hostname|anchored_hostname_ends|offsets_after_hostname)$"):
             n_a += 1
-            a = [g.expr_operand(x) for x in t["args"]]
-            ok = bool(re.search(r"request\.hostname$", a[1])) and \
-                bool(re.search(r"::contains\((arg|up):mask, filters::network::NetworkFilterMask::IS_HOSTNAME_REGEX=", a[2]))
-            run.ob("C02.1.leaves", f"is_anchored_by_hostname-args#{n_a}", ok,
-                   f"is_anchored_by_hostname(filter_hostname, request.hostname, mask.contains(IS_HOSTNAME_REGEX)) — got "
-                   f"({a[0][-30:]}, {a[1][-30:]}, {a[2][-70:]}); a `||host*rest` rule must be allowed to continue inside a label",
-                   site=g.loc(b), config=cfg)
-    run.floor("C02.1.leaves", f"is_anchored_by_hostname call sites [{cfg}]", n_a, 5)
+            callee = t["callee"].split("::")[-1]
+            a = [_resolved(F, g, x) for x in t["args"]]
+            if callee == "offsets_after_hostname":
+                url_ok = bool(re.search(r"^request::Request::get_url\((arg|up):request, .*match_case\((arg|up):mask\)\)$", a[0]))
+                ok = url_ok and a[1] in ("arg:request", "up:request") and a[2] == "arg:hostname" and \
+                    bool(re.search(r"::contains\((arg|up):mask, filters::network::NetworkFilterMask::IS_HOSTNAME_REGEX", a[3]))
+            else:
+                ok = a[0] == "arg:hostname" and bool(re.search(r"(arg|up):request\.hostname\)?$", a[1])) and \
+                    bool(re.search(r"::contains\((arg|up):mask, filters::network::NetworkFilterMask::IS_HOSTNAME_REGEX", a[2]))
+            run.ob("C02.1.leaves", f"hostname-anchoring-args#{n_a}:{callee}", ok,
+                   f"{g.name[len(NM):]} calls {callee} with the rule's hostname, the request (its hostname; the URL selected by "
+                   f"match_case) and mask.contains(IS_HOSTNAME_REGEX) — got {[x[-60:] for x in a]}", site=g.loc(b), config=cfg)
+    run.floor("C02.1.leaves", f"hostname anchoring call sites in the leaves [{cfg}]", n_a, 8)
     # regex leaf: only RegexManager::matches decides
     for leaf in ("check_pattern_regex_filter", "check_pattern_regex_filter_at"):
         f = F.fn(NM + leaf)
@@ -334,220 +373,320 @@ LEAF_TESTS = {
     "check_pattern_left_anchor_filter": r"^core::str::starts_with\((…)?(up:request_url|var:request_url|_\d+), arg:f\)$",
     "check_pattern_right_anchor_filter": r"^core::str::ends_with\((…)?(up:request_url|var:request_url|_\d+), arg:f\)$",
     "check_pattern_left_right_anchor_filter": r"::eq\(.*arg:f\)$|^\(.* Eq .*\)$",
-    "check_pattern_hostname_anchor_filter": r"^core::str::contains\(up:url_after_hostname, arg:f\)$|^std::option::Option::is_some\(memchr::memmem::find\(",
-    "check_pattern_hostname_left_anchor_filter": r"^core::str::starts_with\(up:url_after_hostname, arg:f\)$",
-    "check_pattern_hostname_left_right_anchor_filter": r"::eq\(up:url_after_hostname, arg:f\)$",
 }
+# hostname leaves: the test applied to the part of the URL that starts at an anchored offset
+HOSTED_TESTS = {
+    "check_pattern_hostname_anchor_filter": ("map_or", r"^core::str::contains\(arg:rest, up:f\)$"),
+    "check_pattern_hostname_left_anchor_filter": ("map_or", r"^core::str::starts_with\(arg:rest, up:f\)$"),
+    "check_pattern_hostname_left_right_anchor_filter": ("eq", None),
+}
+WILD = r"::contains\((arg|up):mask, filters::network::NetworkFilterMask::IS_HOSTNAME_REGEX"
+
+
+def _no_negation(*fns):
+    return not [1 for c in fns for b, i, st in c.statements() if st["k"] == "assign" and st["rv"]["k"] == "unop" and st["rv"].get("op") == "Not"]
+
+
+def _paths(g):
+    from analysis.pathinterp import enumerate_paths, path_value
+    rows = []
+    for p in enumerate_paths(g):
+        if p.end == "return":
+            rows.append((p.conds, path_value(g, p, 0) or ""))
+        else:
+            rows.append((p.conds, "<" + p.end + ">"))
+    return rows
 
 
 def rule_leaf_tables(run, F, cfg):
-    """Each leaf matcher as a decision table over (anchored by hostname, pattern list empty): not anchored =>
-    false; anchored and no pattern => true (hostname-right-anchor: request host ends with the rule host);
-    otherwise `any` over ALL patterns of the un-negated per-pattern test."""
-    from analysis.pathinterp import enumerate_paths, path_value
+    """Each leaf matcher as a decision table. Plain leaves: `any` over ALL patterns of the un-negated per-pattern test
+    on the URL. Hostname leaves: no pattern -> whether the rule's hostname is anchored in the request's hostname at
+    all; otherwise `any` over ALL patterns of `any` over ALL anchored offsets of the per-pattern test applied to the
+    URL from that offset (`||host^`: an anchored occurrence that ends the hostname)."""
+    EMPTY = r"^\(std::iter::ExactSizeIterator::len\((arg|up):filters\) Eq 0\)$"
     for leaf, (what, prim, hosted) in LEAVES.items():
         f = F.fn(NM + leaf)
-        if hosted:
-            bodies = [c for n, c in F.fns.items() if n.startswith(f.name + "::{closure") and n.count("{closure") == 1
-                      and c.calls(r"is_anchored_by_hostname$")]
-            outer = f.expr_local(0)
-            run.ob("C02.1.leaves", f"{leaf}:no-hostname-no-match",
-                   bool(re.match(r"^std::option::Option::unwrap_or\(std::option::Option::map\(.*\), (false|true)\)$", outer)),
-                   f"{leaf} is hostname.map(<decision closure>).unwrap_or(<const>) ({outer[-40:]})", config=cfg)
-        else:
-            bodies = [f]
-        if len(bodies) != 1:
-            run.ob("C02.1.leaves", f"{leaf}:table", False, "decision body not found", status="UNDISCHARGED", config=cfg)
-            continue
-        g = bodies[0]
-        rows = []
-        for p in enumerate_paths(g):
-            if p.end != "return":
-                continue
-            a = {}
-            extra = []
-            for e, v in p.conds:
-                if re.search(r"is_anchored_by_hostname\(", e):
-                    a["ANCH"] = v
-                elif re.match(r"^\(std::iter::ExactSizeIterator::len\((arg|up):filters\) Eq 0\)$", e):
-                    a["EMPTY"] = v
-                else:
-                    extra.append((e, v))
-            rows.append((a, extra, path_value(g, p, 0) or ""))
         bad = []
-        for a, extra, val in rows:
-            anch = a.get("ANCH", 1 if not hosted else None)
-            if hosted and anch is None:
-                bad.append(("anchoring undecided", val[:60]))
+        if not hosted:
+            g = f
+            rows = _paths(g)
+            for conds, val in rows:
+                a = {("EMPTY" if re.match(EMPTY, e) else e): v for e, v in conds}
+                extra = [k for k in a if k != "EMPTY"]
+                if "EMPTY" not in a or extra:
+                    bad.append(("decisions", str(extra)[:80]))
+                elif a["EMPTY"] == 1:
+                    if val != "true":
+                        bad.append(("empty pattern must match", val[:60]))
+                else:
+                    m = re.match(r"^std::iter::Iterator::any\((arg|up):filters, closure\[([^\]]+)\]\(", val)
+                    c = F.fns.get(m.group(2)) if m else None
+                    test = c.expr_local(0) if c else ""
+                    if not c or not re.search(LEAF_TESTS[leaf], test) or not _no_negation(c):
+                        bad.append(("per-pattern test", (test or val)[:80]))
+            run.ob("C02.1.leaves", f"{leaf}:table", not bad and len(rows) >= 2,
+                   f"{leaf} ({what}): true without a pattern, otherwise an un-negated per-pattern test inside `any` "
+                   f"({len(rows)} paths; problems: {bad[:2]})", site=g.loc(0), config=cfg)
+            continue
+        outer = f.expr_local(0)
+        run.ob("C02.1.leaves", f"{leaf}:no-hostname-no-match",
+               bool(re.match(r"^std::option::Option::unwrap_or\(std::option::Option::map\(arg:hostname, closure\[.*\]\(.*\)\), false\)$", outer)),
+               f"{leaf} is hostname.map(<decision closure>).unwrap_or(false) ({outer[-40:]})", config=cfg)
+        D = F.fns.get(f.name + "::{closure#0}")
+        if D is None:
+            run.ob("C02.1.leaves", f"{leaf}:table", False, "decision closure not found", status="UNDISCHARGED", config=cfg)
+            continue
+        run.touched(D)
+        rows = _paths(D)
+        for conds, val in rows:
+            a, extra = {}, []
+            for e, v in conds:
+                if re.match(EMPTY, e):
+                    a["EMPTY"] = v
+                elif re.match(r"^std::option::Option::is_some\(<std::iter::FromFn<F> as std::iter::Iterator>::next\(filters::network_matchers::anchored_hostname_ends\(arg:hostname, up:request\.hostname, .*" + WILD, e):
+                    a["ANCH"] = v
+                else:
+                    extra.append(e[:80])
+            if extra or "EMPTY" not in a:
+                bad.append(("decisions", str(extra)[:100]))
                 continue
-            if anch == 0:
-                if val != "false" or extra:
-                    bad.append(("not anchored must be false", val[:60]))
-                continue
-            if "EMPTY" not in a:
-                # only the regex-free delegating leaves may skip the emptiness test
-                bad.append(("emptiness undecided", val[:60]))
+            if leaf == "check_pattern_hostname_right_anchor_filter":
+                if a["EMPTY"] == 1:
+                    # `||host^`: some anchored occurrence ends exactly where the request hostname ends
+                    m = re.match(r"^std::iter::Iterator::any\(filters::network_matchers::anchored_hostname_ends\(.*\), closure\[([^\]]+)\]\(", val)
+                    c = F.fns.get(m.group(1)) if m else None
+                    t_ = c.expr_local(0) if c else ""
+                    if not c or not re.match(r"^\(arg:end Eq std::string::String::len\(.*\.hostname\)\)$", t_) or not _no_negation(c):
+                        bad.append(("no pattern: an anchored occurrence must end the request hostname", (t_ or val)[:80]))
+                elif a.get("ANCH") == 0:
+                    if val != "false":
+                        bad.append(("not anchored must be false", val[:60]))
+                elif a.get("ANCH") == 1:
+                    if not re.match(r"^filters::network_matchers::check_pattern_right_anchor_filter\(up:mask, up:filters, up:request\)$", val):
+                        bad.append(("must delegate to the right-anchor leaf", val[:60]))
+                else:
+                    bad.append(("anchoring undecided", val[:60]))
                 continue
             if a["EMPTY"] == 1:
-                if leaf == "check_pattern_hostname_right_anchor_filter":
-                    okv = (val == "true" and len(extra) == 1 and extra[0][1] == 1 and
-                           re.search(r"len\(up:request\.hostname\) Eq core::str::len\(arg:hostname\)\)$", extra[0][0])) or \
-                          (re.match(r"^core::str::ends_with\(.*, arg:hostname\)$", val) and len(extra) == 1 and extra[0][1] == 0)
-                    if not okv:
-                        bad.append(("empty pattern: request host must end with the rule host", val[:60]))
-                elif val != "true" or extra:
-                    bad.append(("empty pattern must match", val[:60]))
-                continue
-            if extra:
-                bad.append(("extra decision on the pattern path", extra[0][0][-60:]))
-            if leaf == "check_pattern_hostname_right_anchor_filter":
-                if not re.match(r"^filters::network_matchers::check_pattern_right_anchor_filter\(up:mask, up:filters, up:request\)$", val):
-                    bad.append(("must delegate to the right-anchor leaf", val[:60]))
+                if not re.match(r"^filters::network_matchers::is_anchored_by_hostname\(arg:hostname, ", val):
+                    bad.append(("no pattern: the verdict is whether the hostname is anchored", val[:70]))
                 continue
             m = re.match(r"^std::iter::Iterator::any\((arg|up):filters, closure\[([^\]]+)\]\(", val)
-            if not m:
+            P = F.fns.get(m.group(2)) if m else None
+            if P is None:
                 bad.append(("result must be filters.any(test)", val[:60]))
                 continue
-            c = F.fns.get(m.group(2))
-            test = c.expr_local(0) if c else ""
-            nots = [1 for b, i, st in c.statements() if st["k"] == "assign" and st["rv"]["k"] == "unop"] if c else [1]
-            if not re.search(LEAF_TESTS[leaf], test) or nots:
-                bad.append(("per-pattern test", test[:80]))
+            pv = P.expr_local(0)
+            m2 = re.match(r"^std::iter::Iterator::any\(filters::network_matchers::offsets_after_hostname\(.*\), closure\[([^\]]+)\]\(", pv)
+            Q = F.fns.get(m2.group(1)) if m2 else None
+            if Q is None or len(_paths(P)) != 1:
+                bad.append(("per-pattern test must be offsets_after_hostname(..).any(test at offset)", pv[:80]))
+                continue
+            kind, rx = HOSTED_TESTS[leaf]
+            qv = Q.expr_local(0)
+            sliced = r"core::str::get\((up:request_url|.*request_url.*), std::ops::RangeFrom::RangeFrom\{start: arg:offset\}\)"
+            okq = len(_paths(Q)) == 1 and _no_negation(P, Q)
+            if kind == "map_or":
+                m3 = re.match(r"^std::option::Option::map_or\(" + sliced + r", false, closure\[([^\]]+)\]\(", qv)
+                R = F.fns.get(m3.group(2)) if m3 else None
+                okq = okq and R is not None and bool(re.match(rx, R.expr_local(0))) and _no_negation(R) and len(_paths(R)) == 1
+            else:
+                okq = okq and bool(re.match(r"^.*::eq\(" + sliced + r", std::option::Option::Some\{0: up:f\}\)$", qv))
+            if not okq:
+                bad.append(("test at an anchored offset", qv[:120]))
         run.ob("C02.1.leaves", f"{leaf}:table", not bad and len(rows) >= 2,
-               f"{leaf} ({what}): decision table over (anchored, no pattern) with an un-negated per-pattern test inside "
-               f"`any` ({len(rows)} paths; problems: {bad[:2]})", site=g.loc(0), config=cfg)
+               f"{leaf} ({what}): decision table over (no pattern, anchored); with patterns, the un-negated test is applied "
+               f"inside `any` over all patterns and `any` over all anchored offsets to the URL cut at that offset "
+               f"({len(rows)} paths; problems: {bad[:2]})", site=D.loc(0), config=cfg)
     # regex hostname leaf
     f = F.fn(NM + "check_pattern_hostname_anchor_regex_filter")
-    bodies = [c for n, c in F.fns.items() if n.startswith(f.name + "::{closure") and c.calls(r"is_anchored_by_hostname$")]
-    ok = len(bodies) == 1
+    D = F.fns.get(f.name + "::{closure#0}")
+    ok = D is not None
+    why = ""
     if ok:
-        g = bodies[0]
-        vals = {}
-        for p in enumerate_paths(g):
-            if p.end == "return":
-                an = [v for e, v in p.conds if "is_anchored_by_hostname(" in e]
-                vals[an[0] if an else None] = path_value(g, p, 0) or ""
-        ok = vals.get(0) == "false" and bool(re.match(
-            r"^filters::network_matchers::check_pattern_regex_filter_at\(up:mask, up:filters, up:key, up:request, ", vals.get(1, "")))
-        # the regex is applied to the URL after the first occurrence of the rule's hostname
-        at = [g.vexpr_operand(t["args"][4]) for b, t in g.calls(r"check_pattern_regex_filter_at$")]
-        ok = ok and len(at) == 1 and "memchr::memmem::find(" in at[0] and "unwrap_or_default(" in at[0] \
-            and bool(re.search(r"AddWithOverflow core::str::len\((\$|arg:)hostname\)\)\.0$", at[0]))
+        run.touched(D)
+        rows = _paths(D)
+        m = re.match(r"^std::iter::Iterator::any\(filters::network_matchers::offsets_after_hostname\(.*\), closure\[([^\]]+)\]\(", rows[0][1]) if len(rows) == 1 and not rows[0][0] else None
+        Q = F.fns.get(m.group(1)) if m else None
+        qv = Q.expr_local(0) if Q else ""
+        ok = Q is not None and len(_paths(Q)) == 1 and _no_negation(D, Q) and bool(re.match(
+            r"^filters::network_matchers::check_pattern_regex_filter_at\(up:mask, std::clone::Clone::clone\(.*filters.*\), up:key, up:request, arg:start_from, up:regex_manager\)$", qv))
+        why = qv[:120] or str(rows)[:120]
     run.ob("C02.1.leaves", "check_pattern_hostname_anchor_regex_filter:table", ok,
-           "hostname + regex leaf: false unless anchored; otherwise the regex leaf applied to the URL from "
-           "find(url, hostname) + hostname.len()", site=f.loc(0), config=cfg)
+           "hostname + regex leaf: `any` over all anchored offsets of the regex leaf applied, with ALL patterns, to the URL "
+           f"from that offset ({why})", site=f.loc(0), config=cfg)
+    g = F.fn(NM + "check_pattern_regex_filter_at")
+    m = g.calls(r"^regex_manager::RegexManager::matches$")
+    hay = g.expr_operand(m[0][1]["args"][4]) if len(m) == 1 and len(m[0][1]["args"]) > 4 else ""
+    run.ob("C02.1.leaves", "regex-leaf:url-from-offset",
+           bool(re.match(r"^std::option::Option::unwrap_or_default\(core::str::get\(request::Request::get_url\(arg:request, .*match_case\(arg:mask\)\), std::ops::RangeFrom::RangeFrom\{start: arg:start_from\}\)\)$", hay)),
+           f"the regex leaf matches against url[start_from..] of the URL selected by match_case ({hay[:140]})", site=g.loc(0), config=cfg)
 
 
 def rule_anchoring_table(run, F, cfg):
-    """is_anchored_by_hostname as a truth table over its comparisons, checked against the label-boundary
-    specification on all valuations:
-        empty rule host -> true; longer than the request host -> false; same length -> equality;
-        not found -> false; found at 0 -> right boundary; found at the end -> left boundary; else both,
-      right boundary = wildcard || rule host ends with '.' || the request-host character AFTER THE MATCH is '.'
-      left boundary  = rule host starts with '.' || the preceding request-host character is '.'"""
-    from analysis.pathinterp import enumerate_paths, path_value
+    """anchored_hostname_ends as a truth table over its comparisons, checked against the label-boundary specification
+    on all valuations. One step of the iterator, for the occurrence of the rule's hostname found at `start`
+    (end = start + its length):
+        left  = start == 0 || rule host starts with '.' || the request-host character BEFORE the occurrence is '.'
+        right = end == len(request host) || wildcard || rule host ends with '.' || the character AFTER it is '.'
+        left && right -> yield end; otherwise look at the next occurrence, which may overlap this one (from = start + 1)
+      no (further) occurrence -> the iterator ends; an empty rule host yields the offset 0 exactly once."""
     import itertools
-    g = F.fn(NM + "is_anchored_by_hostname")
-    run.touched(g)
+    g = F.fns.get(NM + "anchored_hostname_ends::{closure#0}")
+    if g is None:
+        run.ob("C02.4.label-boundary", "table:modelled", False, "anchored_hostname_ends::{closure#0} not found", status="UNDISCHARGED", config=cfg)
+        return
+    run.touched(g, F.fn(NM + "anchored_hostname_ends"))
+    # the captured variables by what they were initialised with (their names are free): needle = the rule's hostname,
+    # haystack = the request's hostname, from = 0, wildcard = the flag
+    outer = F.fn(NM + "anchored_hostname_ends")
+    cl = [outer.expr_operand(o) for b, i, st in outer.statements() if st["k"] == "assign" and st["rv"]["k"] == "agg"
+          and st["rv"].get("agg") == "closure" for o in st["rv"]["ops"]]
+    fh = r"^(core::str::as_bytes\()?(\(arg:filter_hostname, arg:hostname\)\.0|arg:filter_hostname)\)?$"
+    hh = r"^(core::str::as_bytes\()?(\(arg:filter_hostname, arg:hostname\)\.1|arg:hostname)\)?$"
+    role = {}
+    for k, u in enumerate(sorted(g.upvars, key=lambda u: u[1][-1]["f"])):
+        init = cl[k] if k < len(cl) else ""
+        r_ = "needle" if re.match(fh, init) else "haystack" if re.match(hh, init) else "from" if init == "0" else \
+            "wildcard_filter_hostname" if init == "arg:wildcard_filter_hostname" else None
+        if r_:
+            role[u[2]] = r_
+
+    def canon(e):
+        return re.sub(r"up:(\w+)", lambda m: "up:" + role.get(m.group(1), "?" + m.group(1)), e)
+    START = r"\(up:from AddWithOverflow memchr::memmem::find\(.*\)@Continue\.0\)\.0"
+    START_S = r"\(up:from AddWithOverflow [^()]*@Continue\.0\)\.0"
     ATOM = [
-        (r"^\(core::str::len\(arg:filter_hostname\) Eq 0\)$", "L0"),
-        (r"^\(core::str::len\(arg:filter_hostname\) Gt core::str::len\(arg:hostname\)\)$", "GT"),
-        (r"^\(core::str::len\(arg:filter_hostname\) Eq core::str::len\(arg:hostname\)\)$", "EQ"),
-        (r"^discr\(memchr::memmem::find\(arg:hostname, arg:filter_hostname\)\)$", "FOUND"),
-        (r"^\(memchr::memmem::find\(arg:hostname, arg:filter_hostname\)@Some\.0 Eq 0\)$", "AT0"),
-        (r"^\(memchr::memmem::find\(arg:hostname, arg:filter_hostname\)@Some\.0 Eq \(core::str::len\(arg:hostname\) SubWithOverflow core::str::len\(arg:filter_hostname\)\)\.0\)$", "ATEND"),
-        (r"^arg:wildcard_filter_hostname$", "W"),
-        (r"^core::str::ends_with\(arg:filter_hostname, '\.'\)$", "FE"),
-        (r"^core::str::starts_with\(arg:filter_hostname, '\.'\)$", "FS"),
-        (r"^core::str::starts_with\(core::str::traits::index\(arg:hostname, std::ops::RangeFrom::RangeFrom\{start: core::str::len\(arg:filter_hostname\)\}\), '\.'\)$", "HN"),
-        (r"^core::str::starts_with\(core::str::traits::index\(arg:hostname, std::ops::RangeFrom::RangeFrom\{start: \(memchr::memmem::find\(arg:hostname, arg:filter_hostname\)@Some\.0 SubWithOverflow 1\)\.0\}\), '\.'\)$", "HP"),
-        (r"^core::str::starts_with\(core::str::traits::index\(arg:hostname, std::ops::RangeFrom::RangeFrom\{start: \(memchr::memmem::find\(arg:hostname, arg:filter_hostname\)@Some\.0 AddWithOverflow core::str::len\(arg:filter_hostname\)\)\.0\}\), '\.'\)$", "HNI"),
+        (r"^core::slice::is_empty\(up:needle\)$", "E"),
+        (r"^\(up:from Eq 1\)$", "F1"),
+        (r"^\(\(up:from AddWithOverflow core::slice::len\(up:needle\)\)\.0 Le core::slice::len\(up:haystack\)\)$", "FIT"),
+        (r"^discr\(memchr::memmem::find\(core::slice::index::index\(up:haystack, std::ops::RangeFrom::RangeFrom\{start: up:from\}\), up:needle\)\)$", "NOTFOUND"),
+        (r"^\(" + START + r" Eq 0\)$", "S0"),
+        (r"^\(up:needle\[0\] Eq 46\)$", "NS"),
+        (r"^(φ\{)?\(up:haystack\[\((" + START + "|" + START_S + r") SubWithOverflow 1\)\.0\] Eq 46\)( \| true\})?$", "HP"),
+        (r"^\(\(" + START + r" AddWithOverflow core::slice::len\(up:needle\)\)\.0 Eq core::slice::len\(up:haystack\)\)$", "EEND"),
+        (r"^up:wildcard_filter_hostname$", "W"),
+        (r"^\(up:needle\[\(core::slice::len\(up:needle\) SubWithOverflow 1\)\.0\] Eq 46\)$", "NE"),
+        (r"^(φ\{)?\(up:haystack\[\((" + START + "|" + START_S + r") AddWithOverflow core::slice::len\(up:needle\)\)\.0\] Eq 46\)( \| true\})?$", "HN"),
     ]
 
     def atom(e):
-        e = re.sub(r"<str as std::ops::Index<[^>]*>>::index|core::str::traits::<impl std::ops::Index<[^>]*> for str>::index", "core::str::traits::index", e)
+        e = canon(e)
         for rx, nme in ATOM:
             if re.match(rx, e):
                 return nme
         return None
 
-    rows = []
-    unknown = set()
-    for p in enumerate_paths(g):
-        if p.end != "return":
+    rows, unknown = [], set()
+    for conds, val in _paths(g):
+        if val == "<diverge>":
             continue
         a = {}
-        for e, v in p.conds:
+        for e, v in conds:
             k = atom(e)
             if k is None:
-                unknown.add(e[:110])
-                continue
-            a[k] = 1 if v == 1 else 0
-        val = path_value(g, p, 0) or ""
-        if val not in ("true", "false"):
-            # the value is the last call on the path (starts_with(..) / eq(..)): render it in full
-            last = None
-            for b in p.blocks:
-                t = g.blocks[b]["t"]
-                if t["k"] == "call" and not t["dest"]["p"]:
-                    last = t
-            full = g.expr_call(last) if last else val
-            k = atom(full)
-            if k:
-                val = "atom:" + k
-            elif re.match(r"^std::cmp::impls::eq\(arg:filter_hostname, arg:hostname\)$|^core::str::traits::eq\(arg:filter_hostname, arg:hostname\)$", full):
-                val = "atom:SAME"
+                unknown.add(e[:140])
+            elif v in (0, 1):
+                a[k] = v
             else:
-                unknown.add("value: " + full[:110])
-        rows.append((a, val))
-    okp = not unknown and len(rows) >= 8
+                unknown.add(f"{e[:100]} = {v}")
+        if val == "<backedge:8>" or val.startswith("<backedge"):
+            out = "next"
+        elif val == "std::option::Option::None{}" or "FromResidual" in val:
+            out = "end"
+        elif val == "std::option::Option::Some{0: 0}":
+            out = "zero"
+        elif val.startswith("std::option::Option::Some{0: "):
+            out = "yield"
+        else:
+            unknown.add("value: " + val[:100])
+            out = "?"
+        rows.append((a, out))
+    okp = not unknown and len(rows) >= 12
     run.ob("C02.4.label-boundary", "table:modelled", okp,
-           f"every comparison of is_anchored_by_hostname is one of the modelled atoms ({len(rows)} paths; unmodelled: "
+           f"every comparison of anchored_hostname_ends is one of the modelled atoms ({len(rows)} paths; unmodelled: "
            f"{sorted(unknown)[:2]})", status=None if okp else "UNDISCHARGED", site=g.loc(0), config=cfg)
-    bad = []
-    n = 0
+    bad, n = [], 0
     if okp:
-        # HN: the request host continues with '.' right after the rule host when the match is at offset 0
-        # (hostname[len..]); HNI: the same test at the end of the match wherever it is (hostname[at + len..]).
-        # At offset 0 the two coincide; for an infix match only HNI is the character after the match.
-        names = ["L0", "GT", "EQ", "FOUND", "AT0", "ATEND", "W", "FE", "FS", "HN", "HNI", "HP", "SAME"]
+        names = ["E", "F1", "FIT", "NOTFOUND", "S0", "NS", "HP", "EEND", "W", "NE", "HN"]
         for bits in itertools.product((0, 1), repeat=len(names)):
             v = dict(zip(names, bits))
-            # arithmetic consistency of the length atoms
-            if v["L0"] and v["GT"]:
-                continue
-            if v["GT"] and v["EQ"]:
-                continue
             n += 1
-            if v["AT0"] and v["HN"] != v["HNI"]:
-                continue        # same character at offset 0
-            right = v["W"] or v["FE"] or v["HNI"]
-            left = v["FS"] or v["HP"]
-            if v["L0"]:
-                want = 1
-            elif v["GT"]:
-                want = 0
-            elif v["EQ"]:
-                want = v["SAME"]
-            elif not v["FOUND"]:
-                want = 0
-            elif v["AT0"]:
-                want = int(bool(right))
-            elif v["ATEND"]:
-                want = int(bool(left))
+            if v["E"]:
+                want = "zero" if v["F1"] else "end"
+            elif not v["FIT"] or v["NOTFOUND"]:
+                want = "end"
             else:
-                want = int(bool(right and left))
-            got = set()
-            for a, val in rows:
-                if all(v[k] == x for k, x in a.items()):
-                    got.add(v[val[5:]] if val.startswith("atom:") else (1 if val == "true" else 0))
+                left = v["S0"] or v["NS"] or v["HP"]
+                right = v["EEND"] or v["W"] or v["NE"] or v["HN"]
+                want = "yield" if (left and right) else "next"
+            got = {out for a, out in rows if all(v[k] == x for k, x in a.items())}
             if got != {want}:
                 bad.append(({k: x for k, x in v.items() if x}, sorted(got), want))
                 if len(bad) > 3:
                     break
     run.ob("C02.4.label-boundary", "table", okp and not bad,
-           f"is_anchored_by_hostname equals the label-boundary specification on all {n} consistent valuations of its "
+           f"one step of anchored_hostname_ends equals the label-boundary specification on all {n} valuations of its "
            f"comparisons (first difference: {bad[:1]})", site=g.loc(0), config=cfg)
+    # what is yielded, and how the search advances
+    ys = [canon(g.expr_operand(st["rv"]["ops"][0])) for b, i, st in g.statements()
+          if st["k"] == "assign" and st["rv"]["k"] == "agg" and st["rv"].get("variant") == "Some" and st["rv"]["ops"]]
+    y_ok = sorted(set(re.sub(START, "START", y) for y in ys)) == ["(START AddWithOverflow core::slice::len(up:needle)).0", "0"]
+    run.ob("C02.4.label-boundary", "yields-end-of-occurrence", y_ok,
+           f"the offset yielded is the end of the occurrence (start + rule host length), 0 for the empty rule host ({[y[:90] for y in ys]})",
+           site=g.loc(0), config=cfg)
+    adv = [canon(g.expr_rvalue(st["rv"])) for b, i, st in g.statements()
+           if st["k"] == "assign" and st["pl"]["l"] == 1 and st["pl"]["p"] and canon(g.expr_place(st["pl"])) == "up:from"]
+    a_ok = sorted(set(re.sub(START, "START", x) for x in adv)) == ["(START AddWithOverflow 1).0", "(up:from AddWithOverflow 1).0"]
+    run.ob("C02.4.label-boundary", "advances-by-one", a_ok,
+           "after an occurrence at `start` the search resumes at start + 1, so that an overlapping occurrence (`a.a` in "
+           f"`ba.a.a`) is not skipped ({[x[:80] for x in adv]})", site=g.loc(0), config=cfg)
+    # (str::as_bytes is a transparent cast in MIR; `let (needle, haystack) = (a, b)` renders as the tuple's fields)
+    c_ok = len(cl) == 4 and sorted(role.values()) == ["from", "haystack", "needle", "wildcard_filter_hostname"]
+    run.ob("C02.4.label-boundary", "captures", c_ok,
+           f"the step closure searches the rule's hostname (needle) in the request's hostname (haystack) from offset 0 ({cl})",
+           site=outer.loc(0), config=cfg)
+    ia = F.fn(NM + "is_anchored_by_hostname")
+    e = ia.expr_local(0)
+    run.ob("C02.4.label-boundary", "is_anchored:any-occurrence",
+           e == "std::option::Option::is_some(<std::iter::FromFn<F> as std::iter::Iterator>::next(filters::network_matchers::anchored_hostname_ends(arg:filter_hostname, arg:hostname, arg:wildcard_filter_hostname)))",
+           f"is_anchored_by_hostname is `anchored_hostname_ends(..).next().is_some()` ({e[:120]})", site=ia.loc(0), config=cfg)
+    # from hostname offsets to URL offsets
+    o = F.fn(NM + "offsets_after_hostname")
+    run.touched(o, ia)
+    ov = o.expr_local(0)
+    from analysis.guards import conditional_defs as _cd
+    hs = [l for l, nme in o.varnames.items() if nme == "host_start"]
+    defs = sorted((val, tuple(sorted(c.items()))) for kind, b, val, c, _ in _cd(o, hs[0])) if hs else []
+    want_defs = sorted([("0", (("core::str::is_empty(arg:filter_hostname)", 1),)),
+                        ("filters::network_matchers::hostname_offset(arg:url, arg:request.hostname)", (("core::str::is_empty(arg:filter_hostname)", 0),))])
+    m = re.match(r"^std::iter::Iterator::map\(filters::network_matchers::anchored_hostname_ends\(arg:filter_hostname, arg:request\.hostname, arg:wildcard_filter_hostname\), closure\[([^\]]+)\]\(", ov)
+    K = F.fns.get(m.group(1)) if m else None
+    kv = K.expr_local(0) if K else ""
+    run.ob("C02.4.label-boundary", "url-offsets", defs == want_defs and K is not None and kv == "(up:host_start AddWithOverflow arg:end).0",
+           "offsets_after_hostname maps every anchored end to host_start + end, where host_start is the offset of the request's "
+           f"hostname in the URL (0 for an empty rule hostname: the pattern is then anchored at the start of the URL) ({kv}; {defs})",
+           site=o.loc(0), config=cfg)
+    h = F.fn(NM + "hostname_offset")
+    run.touched(h)
+    rets = sorted((val, len(c)) for kind, b, val, c, _ in _cd(h, 0))
+    found = [v for v, k in rets if k > 0]
+    fallback = [v for v, k in rets if k == 0]
+    in_auth = len(found) == 1 and bool(re.match(
+        r"^\(std::option::Option::map_or\(memchr::memmem::find\(arg:url, b\"://\"\), 0, closure\[[^\]]+\]\(\)\) AddWithOverflow "
+        r"std::option::Option::map_or\(memchr::memrchr\(64, ", found[0]))
+    conds_found = [c for kind, b, val, c, _ in _cd(h, 0) if c]
+    cmp_ok = len(conds_found) == 1 and any("eq_ignore_ascii_case(" in k and k.endswith(", arg:hostname)") and v == 1 for k, v in conds_found[0].items())
+    plus3 = [c.expr_local(0) for c in F.closures_of(h.name)]
+    stops = [sorted(v for v, _ in t["targets"]) for c in F.closures_of(h.name) for b2 in sorted(c.normal_blocks())
+             for t in [c.blocks[b2]["t"]] if t["k"] == "switch" and t.get("dty") == "u8"]
+    run.ob("C02.4.label-boundary", "hostname-position-in-url",
+           in_auth and cmp_ok and fallback == ["std::option::Option::unwrap_or(memchr::memmem::find(arg:url, arg:hostname), core::slice::len(arg:url))"]
+           and "(arg:i AddWithOverflow 3).0" in plus3 and [35, 47, 63] in stops,
+           "hostname_offset looks for the request's hostname where the URL has it: after `://` (+3), after the last `@` of the "
+           "authority, which ends at the first `/`, `?` or `#`; it answers authority_start + host_start only if the bytes "
+           "there are the hostname (ASCII case-insensitively), and falls back to a text search otherwise "
+           f"({[f_[:70] for f_ in found]}; {fallback}; closures {plus3}; stops {stops})", site=h.loc(0), config=cfg)
 
 
 def rule_regex_builder(run, F, cfg):
